@@ -71,14 +71,14 @@ Theorem event_binding w toks e w' ys beta :
   Inv w toks -> handle_event w e = inl (w', ys) -> bound beta w ->
   exists beta', (forall g, (g < w_nextg w)%nat -> beta' g = beta g) /\ bound beta' w' /\
     (w_nextg w <= w_nextg w')%nat /\
-    forall fd g r, In (fd, g, r) ys -> exists x, alookup fd (w_conns w) = Some x /\ sc_gid x = g /\ e = EvIn fd.
+    forall fd g r, In (fd, g, r) ys -> exists x, alookup fd (w_conns w) = Some x /\ sc_gid x = g /\ exists kk, e = EvIn fd kk.
 Proof.
   intros HI H Hb.
   assert (Upd : forall fd x y clients', alookup fd (w_conns w) = Some x -> sc_gid y = sc_gid x -> sc_client y = sc_client x ->
             bound beta (Server.mkW clients' (aupdate fd y (w_conns w)) (w_backlog w) (w_tokens w) (w_nextg w) (w_limit w) (w_killed w))).
   { intros fd x y cl' HL Hg Hc fd0 x0 H0. cbn [w_conns] in H0. apply alookup_update_cases in H0.
     destruct H0 as [(-> & -> & _)|(_ & H0)]; [rewrite Hg, Hc; eauto|eauto]. }
-  destruct e as [fd|fd|fd kk|nf|]; cbn [Server.handle_event] in H.
+  destruct e as [fd|fd kk|fd kk|nf|]; cbn [Server.handle_event] in H.
   - destruct (alookup fd (w_conns w)) as [x|] eqn:HL; [|discriminate]. inversion H; subst w' ys; clear H.
     exists beta. split; [auto|]. split; [|split; [cbn; lia|intros ? ? ? []]].
     unfold set_conn. eapply Upd; eauto.
@@ -201,7 +201,7 @@ Theorem event_delivery w e w' ys c :
      (exists fd kk x rest, e = EvOut fd kk /\ alookup fd (w_conns w) = Some x /\ sc_client x = c /\ unsent (sc_conn x) = d ++ rest) \/
      (exists nf rest, e = EvListener nf /\ w_backlog w = c :: rest /\ d = SERVER_FULL_ERROR_MESSAGE)).
 Proof.
-  destruct e as [fd|fd|fd kk|nf|]; cbn [Server.handle_event].
+  destruct e as [fd|fd kk|fd kk|nf|]; cbn [Server.handle_event].
   - destruct (alookup fd (w_conns w)); [|discriminate]. intros H; inversion H; subst. exists []. rewrite app_nil_r. auto.
   - destruct (alookup fd (w_conns w)) as [x|]; [|discriminate].
     destruct (cc_read x _) as [[y rs]|]; [|discriminate]. intros H; inversion H; subst w' ys; clear H.
@@ -278,8 +278,8 @@ Qed.
 
 (* what reading adds to a connection's unsent output, in any world: replies the server generated
    from that connection's own input *)
-Theorem read_unsent w toks fd w' ys :
-  Inv w toks -> evt_ok w (EvIn fd) -> handle_event w (EvIn fd) = inl (w', ys) ->
+Theorem read_unsent w toks fd kk w' ys :
+  Inv w toks -> evt_ok w (EvIn fd kk) -> handle_event w (EvIn fd kk) = inl (w', ys) ->
   exists x y gen, alookup fd (w_conns w) = Some x /\ alookup fd (w_conns w') = Some y /\
     unsent (sc_conn y) = unsent (sc_conn x) ++ flat_map serialize gen /\ Forall server_generated gen /\
     forall fd0, fd0 <> fd -> alookup fd0 (w_conns w') = alookup fd0 (w_conns w).
@@ -288,7 +288,10 @@ Proof.
   destruct (inv_cc _ _ _ HI _ _ HL) as [Hok [ph I]].
   assert (Hshort : (length (c_win (sc_conn x)) < BUF)%nat) by (eapply conn_win_short; eauto).
   set (cl := client_of w (sc_client x)).
-  set (n := Nat.min (BUF - length (c_win (sc_conn x))) (length (k_tosrv cl))).
+  set (n := read_amount kk (BUF - length (c_win (sc_conn x))) (length (k_tosrv cl))).
+  assert (Hra : (n <= (BUF - length (c_win (sc_conn x))) /\ n <= (length (k_tosrv cl)) /\ (1 <= (BUF - length (c_win (sc_conn x))) -> 1 <= (length (k_tosrv cl)) -> 1 <= n))%nat)
+    by (unfold n, read_amount; destruct (Nat.eqb kk 0) eqn:Ek; [|apply Nat.eqb_neq in Ek]; lia).
+  destruct Hra as (Ra1 & Ra2 & Ra3).
   destruct (cc_read x (RData (firstn n (k_tosrv cl)) [])) as [[y rs]|] eqn:R; [|discriminate].
   intros H; inversion H; subst w' ys; clear H.
   set (y' := match sc_st y with AwaitOut => mkSC (sc_conn y) (sc_st y) (sc_infl y) (sc_client y) true (sc_gid y) | _ => y end).
@@ -300,7 +303,7 @@ Proof.
       assert (E : (BUF <=? length (c_win (sc_conn x)))%nat = false) by (apply Nat.leb_gt; lia). rewrite E.
       intros R; inversion R; subst. exists []. cbn. rewrite app_nil_r. auto.
     - assert (Hlen : (length (c_win (sc_conn x)) + length (b :: bs) <= BUF)%nat).
-      { rewrite <- Fn, firstn_length. unfold n. lia. }
+      { rewrite <- Fn, firstn_length. lia. }
       destruct (cc_read_rq BUF BUF_min BUF_u32 x b bs y rs (conj Hok (ex_intro _ ph I)) Hlen R) as (gen & Hg & Fg).
       exists gen. split; [exact Hg|]. split; [|exact Fg].
       (* the staged buffer is untouched by a read *)
